@@ -53,6 +53,12 @@ func (e *Exec) intrinsic(fn *ssa.Function, name string, args []Value) (Value, bo
 		return e.st.Var(e.constString(args[0]), 8), true
 	case "vU16":
 		return e.st.Var(e.constString(args[0]), 16), true
+	case "vU8N":
+		return e.st.Var(fmt.Sprintf("%s%d", e.constString(args[0]), e.constInt(args[1])), 8), true
+	case "vU16N":
+		return e.st.Var(fmt.Sprintf("%s%d", e.constString(args[0]), e.constInt(args[1])), 16), true
+	case "vBoolN":
+		return e.st.Var(fmt.Sprintf("%s%d", e.constString(args[0]), e.constInt(args[1])), 0), true
 	case "vU32":
 		return e.st.Var(e.constString(args[0]), 32), true
 	case "vU64", "vInt":
@@ -158,6 +164,49 @@ func (e *Exec) intrinsic(fn *ssa.Function, name string, args []Value) (Value, bo
 			}
 		}
 		return e.c64(int64(n)), true
+	case "vCancelReleased":
+		// no goroutine left behind: every recorded goroutine ran to completion
+		for _, t := range e.threads {
+			if !t.done {
+				return e.st.False, true
+			}
+		}
+		return e.st.True, true
+	case "vIsErrOf":
+		// err is the error of ctx (identity = the cancelled ancestor that caused it)
+		ei := args[0].(*IfaceV)
+		ci := args[1].(*IfaceV)
+		eo, ok1 := ei.v.(*OpaqueV)
+		co, ok2 := ci.v.(*OpaqueV)
+		if ei.t == nil || !ok1 || !ok2 || eo.kind != "ctxerr" {
+			return e.st.False, true
+		}
+		return e.st.Bool(eo.id == e.ctxCause(co.id) && eo.id != 0), true
+	case "vEventBefore":
+		a, b := e.constString(args[0]), e.constString(args[1])
+		ia, ib := -1, -1
+		for i, ev := range e.events {
+			if ev.Kind == a && ia < 0 {
+				ia = i
+			}
+			if ev.Kind == b && ib < 0 {
+				ib = i
+			}
+		}
+		return e.st.Bool(ia >= 0 && ib >= 0 && ia < ib), true
+	case "vSettle":
+		return nil, true
+	case "vStop":
+		panic(pathEnd{"bounded", "harness bound reached: " + e.constString(args[0])})
+	case "vKindCount":
+		k := e.constString(args[0])
+		n := 0
+		for _, ev := range e.events {
+			if ev.Kind == k {
+				n++
+			}
+		}
+		return e.c64(int64(n)), true
 	case "vGoCount":
 		return e.c64(int64(len(e.threads))), true
 	case "vRunThread":
@@ -166,6 +215,7 @@ func (e *Exec) intrinsic(fn *ssa.Function, name string, args []Value) (Value, bo
 			e.unsupported("vRunThread: no such thread")
 		}
 		e.invoke(e.threads[i].fn, e.threads[i].args)
+		e.threads[i].done = true
 		return nil, true
 	case "vMapHavoc":
 		return e.mapHavoc(args), true
@@ -369,26 +419,55 @@ func (e *Exec) stub(fn *ssa.Function, full string, args []Value) (Value, bool) {
 	case "context.WithCancel":
 		e.objSeq++
 		child := &OpaqueV{kind: "ctx", id: e.objSeq, data: args[0]}
+		pid := 0
+		if pi, ok := args[0].(*IfaceV); ok {
+			if po, ok := pi.v.(*OpaqueV); ok {
+				pid = po.id
+			}
+		}
+		e.ctxs[child.id] = &ctxInfo{parent: pid}
 		e.events = append(e.events, Event{Kind: "ctx.WithCancel", Args: []Value{child}})
 		return TupleV{&IfaceV{t: types.Typ[types.UnsafePointer], v: child}, &FuncV{ext: "cancel", data: child}}, true
 	case "context.Background", "context.TODO":
 		e.objSeq++
+		e.ctxs[e.objSeq] = &ctxInfo{}
 		return &IfaceV{t: types.Typ[types.UnsafePointer], v: &OpaqueV{kind: "ctx", id: e.objSeq}}, true
 	case "sync/atomic.LoadInt32":
 		p := args[0].(*PtrV)
 		e.events = append(e.events, Event{Kind: "atomic.Load", Args: []Value{p}})
-		if h := e.harnessFunc("vEnvAtomicLoad"); h != nil {
-			// environment model decides what the load observes
-			return e.callFunc(h, []Value{e.load(p)}, nil), true
+		if len(e.threads) > 0 {
+			e.access(p, false, true, "atomic.LoadInt32")
+			if ls := e.locs[locKey(p)]; ls != nil {
+				e.acquire(ls.rel)
+			}
 		}
 		return e.load(p), true
 	case "sync/atomic.StoreInt32":
 		p := args[0].(*PtrV)
 		e.events = append(e.events, Event{Kind: "atomic.Store", Args: []Value{p, args[1]}})
+		if len(e.threads) > 0 {
+			e.access(p, true, true, "atomic.StoreInt32")
+			ls := e.locs[locKey(p)]
+			ls.rel = e.release(ls.rel)
+		}
 		e.store(p, args[1])
 		return nil, true
 	}
 	if strings.HasPrefix(full, "(*sync.Mutex).") || strings.HasPrefix(full, "(*sync.RWMutex).") {
+		// lock = acquire, unlock = release on the mutex object
+		if p, ok := args[0].(*PtrV); ok && p.obj != nil && len(e.threads) > 0 {
+			k := "mutex:" + locKey(p)
+			ls := e.locs[k]
+			if ls == nil {
+				ls = &locState{}
+				e.locs[k] = ls
+			}
+			if strings.HasSuffix(full, "Unlock") {
+				ls.rel = e.release(ls.rel)
+			} else {
+				e.acquire(ls.rel)
+			}
+		}
 		return nil, true
 	}
 	return nil, false
@@ -405,7 +484,13 @@ func (e *Exec) harnessFunc(name string) *ssa.Function {
 func (e *Exec) extCall(fv *FuncV, args []Value) Value {
 	switch {
 	case fv.ext == "cancel":
-		e.events = append(e.events, Event{Kind: "cancel", Args: []Value{fv.data.(*OpaqueV)}})
+		c := fv.data.(*OpaqueV)
+		e.events = append(e.events, Event{Kind: "cancel", Args: []Value{c}})
+		if ci := e.ctxs[c.id]; ci != nil {
+			ci.cancelled = true
+		}
+		e.ctxRel[c.id] = e.release(e.ctxRel[c.id])
+		e.wake()
 		return nil
 	case strings.HasPrefix(fv.ext, "opaque:ctx."):
 		m := fv.ext[len("opaque:ctx."):]
@@ -415,8 +500,11 @@ func (e *Exec) extCall(fv *FuncV, args []Value) Value {
 			return &OpaqueV{kind: "donechan", data: op}
 		case "Err":
 			e.events = append(e.events, Event{Kind: "ctx.Err", Args: []Value{op}})
-			e.objSeq++
-			return &IfaceV{t: types.Typ[types.UnsafePointer], v: &OpaqueV{kind: "ctxerr", id: op.id, data: op}}
+			cause := e.ctxCause(op.id)
+			if cause == 0 {
+				return &IfaceV{}
+			}
+			return &IfaceV{t: types.Typ[types.UnsafePointer], v: &OpaqueV{kind: "ctxerr", id: cause, data: op}}
 		}
 	}
 	e.unsupported("external call " + fv.ext)
